@@ -619,7 +619,7 @@ func (u *Unit) execTypeSwitch(st *State, x *ast.TypeSwitchStmt) *State {
 			}
 			t := tv.Type
 			if isInterface(t) {
-				ok := u.uninterp("implements_"+fmt.Sprint(u.sc.tid(t)), []string{"Int"}, "Bool", app("dyntype", v.T))
+				ok := app(u.sc.implementsFn(t), app("dyntype", v.T))
 				cs = append(cs, sAnd(sNot(sEq(v.T, "0")), ok))
 			} else {
 				cs = append(cs, sEq(app("dyntype", v.T), strconv.Itoa(u.sc.tid(t))))
